@@ -6,7 +6,7 @@ from vlib.core import qlit, qvec, qmat, coqbool, natlist, blist, zlist
 
 OBLIGATIONS = dict(
     prop_file='Properties/C06.v',
-    glue=['Glue/CoreGlue.v', 'Glue/Pin_p_residual.v'] + ['Glue/Pin_fp_C06.v'],
+    glue=['Glue/CoreGlue.v', 'Glue/Pin_p_residual.v'] + ['Glue/Pin_fp_C06.v', 'Glue/GroupCatGlue.v'],
     extra=['Model/ResidualCheck.vo'],
     gen_items=['p_residual', 'k_cdist', 'fp_C06'],
 )
